@@ -1271,6 +1271,13 @@ def seq_items(v):
         return v.items, v.lo, v.hi
     if isinstance(v, BytesLit):
         return list(v.data), 0, len(v.data)
+    if type(v).__name__ == 'StrBytes':
+        # the bytes of a string whose characters are all known: an ordinary byte sequence
+        from .models import str_simplify
+        cs = str_simplify(v.s)
+        if isinstance(cs, str):
+            data = list(cs.encode('utf-8'))
+            return data, 0, len(data)
     raise Unsupported('not a sequence: %r' % (v,))
 
 
